@@ -3,12 +3,12 @@
 #   tools/mut_confirm.sh <patch.diff>      (uses the persistent scratch tree /tmp/mutconfirm with its own _build)
 set -u
 PATCH=$(readlink -f "$1")
-export OMPI_ALLOW_RUN_AS_ROOT=1 OMPI_ALLOW_RUN_AS_ROOT_CONFIRM=1 OMPI_MCA_rmaps_base_oversubscribe=1
+export OPENBLAS_NUM_THREADS=1 OMP_NUM_THREADS=1 OMPI_ALLOW_RUN_AS_ROOT=1 OMPI_ALLOW_RUN_AS_ROOT_CONFIRM=1 OMPI_MCA_rmaps_base_oversubscribe=1
 MC=${MUTCONFIRM_DIR:-/tmp/mutconfirm}
 cd "$MC" || exit 3
 git checkout -q -- . ; git apply "$PATCH" || { echo "patch does not apply"; exit 3; }
-cmake --build _build --target build_tests -- -j8 > $MC.build.log 2>&1 || { echo "BUILD FAILED"; tail -20 $MC.build.log; git checkout -q -- .; exit 1; }
-ctest --test-dir _build -j8 --timeout 900 > $MC.ctest.log 2>&1
+cmake --build _build --target build_tests -- -j4 > $MC.build.log 2>&1 || { echo "BUILD FAILED"; tail -20 $MC.build.log; git checkout -q -- .; exit 1; }
+ctest --test-dir _build -j4 --timeout 900 > $MC.ctest.log 2>&1
 RC=$?
 tail -6 $MC.ctest.log
 git checkout -q -- .
